@@ -159,6 +159,7 @@ func (c *clientConn) sendPacket(ctx context.Context, ch chan result, p idmarshal
 	}
 
 	c.dispatchRequest(ch, p)
+	simYield("cc.sent", uint64(p.id()))
 
 	select {
 	case <-ctx.Done():
